@@ -30,7 +30,8 @@ CHECKS = {
              "undone test, the rest returns to the pool once, finished units are not re-queued. SYSTEM level for --dist load with arbitrary crashes (CrashTheorems.v, CrashTokens.v): every crash report names the test the dead worker was executing or "
              "about to start; without a re-queueing plugin no test is ever started twice; pool ++ all workers' holdings ++ crashed tests is a permutation of the collection; the same for the scope family (CrashScopeTheorems.v) and worksteal "
              "(CrashStealTokens.v: withdrawals in flight when the victim dies included).", design="5/C03", technique=TECH),
- "C04": dict(text=SYS + "Proved at SYSTEM level for every configuration and schedule (crashes, replacements): produced(n) = forwarded(n) ++ in controller queue ++ on the wire (FIFO, once, tagged). "
+ "C04": dict(text=SYS + "Proved at SYSTEM level for every mode, configuration and schedule (crashes, replacements, workers written off for an undecodable report): decodable(produced(n)) = forwarded(n) ++ in controller queue ++ still to be heard on the wire "
+             "(FIFO, once, tagged, nothing undecodable forwarded); for a worker with no undecodable report the full equation. "
              "Content fidelity (pytest's report serialisation), tallies and exit status are compared in real -n runs against the in-process run.", design="5/C04", technique=TECH + "; real pytest runs for the glue"),
  "C05": dict(text="Theorems for every command stream and every interleaving of receiver-thread lock sections with the main thread (Model/Worker.v): run order = assigned not-withdrawn prefix, "
              "announced next item = next test run, None only last, nothing withdrawn was started/announced, completeness at the marker, exact has-items flag. Tied to the real TestQueue/WorkerInteractor "
@@ -45,12 +46,14 @@ CHECKS = {
              "equal-collection replacement inherits exactly the remainder; a disagreeing one inherits nothing. SYSTEM level (EachSystem.v; no worker failure, workers may collect different lists, every schedule): "
              "every worker starts a prefix of its own collection in order, exactly the whole collection when the session ends as finished, and the controller never raises.", design="5/C08", technique=TECH),
  "C09": dict(text=SYS + "Proved (all states/collections): diff None iff equal; initial disagreement => no command, one failed collect report per disagreeing worker; disagreeing replacement is never "
-             "registered, gets no tests, is shut down; invariant over every reachable scheduler state: whoever is sent positions registered exactly the reference collection.", design="5/C09", technique=TECH),
- "C10": dict(text=SYS + CTL + "Proved for EVERY event sequence and scheduler state: replacements started <= max(0, budget); budget <= 0 disables replacement; one death spawns at most one replacement. "
-             "Known finding: no budget at all when neither -n nor the option is given.", design="5/C10", technique=TECH),
+             "registered, gets no tests, is shut down; invariant over every reachable scheduler state: whoever is sent positions registered exactly the reference collection. SYSTEM level (SystemCorollariesColl.v, SystemGaps3*.v; all modes, every schedule with crashes): "
+             "all registered collections equal the reference and are what the worker really collected; whoever is sent a run / run-all command is registered with the reference collection after that step.", design="5/C09", technique=TECH),
+ "C10": dict(text=SYS + CTL + "Proved for EVERY event sequence and scheduler state: replacements started <= max(0, budget); budget <= 0 disables replacement; one death spawns at most one replacement. SYSTEM level (SystemCorollaries.v, all modes, every schedule): the replacements started in a whole run never exceed max(0, budget); budget <= 0 means none. "
+             "Known findings: no budget at all when neither -n nor the option is given; a budget exhausted by deaths of workers that held no test ends the run with a success status.", design="5/C10", technique=TECH),
  "C11": dict(text=SYS + CTL + "Proved (every event sequence): the stop reason is sticky, triggers shutdown in the same iteration, is set exactly by the maxfail rule or a worker's stop request; late ready "
-             "workers are shut down, late collections ignored, flagged nodes get no work. The simulator runs the real pytest_runtestloop.", design="5/C11", technique=TECH),
- "C12": dict(text=SYS + "Proved (every event sequence): replacement ids are the consecutive next numbers of the group counter: distinct, never reused. Environment variables, fixtures and basetemp are "
+             "workers are shut down, late collections ignored, flagged nodes get no work. SYSTEM level (SystemCorollaries.v, SystemGaps2*.v; all modes, every schedule with crashes): the stop flag is sticky; from the step that sets it onwards "
+             "NO run / run-all / withdrawal command is sent to ANY worker (true for the deciding step since fix 8ba5861). The simulator runs the real pytest_runtestloop.", design="5/C11", technique=TECH),
+ "C12": dict(text=SYS + "Proved (every event sequence): replacement ids are the consecutive next numbers of the group counter: distinct, never reused; SYSTEM level (SystemCorollaries.v, all modes): the ids of a run's replacements are exactly numnodes, numnodes+1, ... Environment variables, fixtures and basetemp are "
              "checked in real -n runs with crashing tests (no model can contain the OS): partial for that half.", design="5/C12", technique=TECH + "; real pytest runs for env/fixtures/tmp dirs"),
  "C13": dict(text="Theorems over the whole option record (Z-valued, arbitrary strings) for each documented rule, about a Gallina model of plugin.pytest_cmdline_main/_is_distribution_mode/pytest_configure, "
              "parse_tx_spec_config, setup_config, looponfail main; tied to the code by differential runs of the real _prepareconfig + hook implementations on generated option combinations (incl. addopts, env var).",
@@ -61,11 +64,13 @@ CHECKS = {
  "C15": dict(text=SYS + "Proved (all states): mark_test_pending puts the index at the FRONT of the pool and adds exactly one index; SYSTEM level (RequeueCount.v, RequeueCountSteal.v; load and worksteal, arbitrary crashes, any number of re-queues): every test is started at most 1 + (times re-queued) times, with the exact account at a finished end; (SystemCorollariesRequeue.v, load and worksteal) the re-queued index is at the front of the pool or handed out first in the same step; monitors check hook-before-publication and dispatch-first on the implementation.",
              design="5/C15", technique=TECH),
  "C16": dict(text=SYS + CTL + "Proved for EVERY event sequence: at most one shutdown command per worker, never a second; every scheduler operation except the initial schedule sends no work to a flagged node "
-             "(the initial schedule under 'no node flagged yet'); steal requests name only booked tests; indices stay valid.", design="5/C16", technique=TECH),
+             "(the initial schedule under 'no node flagged yet'); steal requests name only booked tests; indices stay valid. SYSTEM level (SystemCorollaries*.v, SystemGaps*.v; ALL modes, every schedule with crashes): at most one shutdown per worker in the whole run and it is the LAST command "
+             "of the worker's stream (hypothesis 'no undecodable report' for load/scope/each: without it the statement is refuted, recorded finding, Coq witness CtlWitnesses.v); book coupling (what the controller believes outstanding = what the worker owes) for all modes.", design="5/C16", technique=TECH),
  "C17": dict(text=SYS + CTL + "Deaths are injected at every lifecycle point; any controller exception other than the documented 'no active workers' exit, any stuck state and any budget violation is reported with its schedule. "
              "Proofs: SYSTEM level for --dist load (CrashCoupling.v, CrashTheorems.v), ARBITRARY crashes at any moment, replacements, any budget, every schedule: the book coupling invariant extended to dead and replacement workers; "
              "the only exception the controller can end with is the documented 'no active workers' one, which needs a worker that collected a different list; with agreeing collections the controller never raises. "
-             "For every mode: the restart budget and crash-report theorems (C10, C03) hold for every event sequence incl. events of unknown nodes. Partial: 'never raises' for the other modes is searched by the monitors, not proved.", design="5/C17", technique=TECH),
+             "The same for worksteal (CrashSteal*.v), the scope family (CrashScope*.v) and each (CrashEach*.v) — without a re-queueing plugin where mark_test_pending is not implemented (scope, each). "
+             "For every mode: the restart budget and crash-report theorems (C10, C03) hold for every event sequence incl. events of unknown nodes. Recorded findings (with Coq witnesses where controller-level): internal_error event then exit; written-off worker finishes its queue.", design="5/C17", technique=TECH),
  "C18": dict(text="Model of StatRecorder.check (visit filters, cache bookkeeping, duplicate/nested roots) and of the failure memory, compared with the real classes on a real temp directory with explicit mtimes; "
              "an independent set-difference oracle checks 'changed iff the watched set changed' on every poll. Proved (Proofs/StatRecProofs.v) for every snapshot and ANY root list: a poll reports a change iff the map path->(mtime,size) of watched files differs from the cache "
              "(created, deleted, mtime or size different in either direction), the new cache is the watched set, a second poll on the same snapshot reports nothing, the cache never holds a path twice; plus the failure-memory theorems.",
